@@ -55,11 +55,9 @@ func IsDecimalInteger(s string) bool {
 
 // MatchesString returns true if at least one of the regexps matches str
 func MatchesString(regexps []*regexp.Regexp, str string) bool {
-	if str != `` {
-		for _, v := range regexps {
-			if v.MatchString(str) {
-				return true
-			}
+	for _, v := range regexps {
+		if v.MatchString(str) {
+			return true
 		}
 	}
 	return false
